@@ -21,6 +21,7 @@ type c18Case struct {
 	Reconnect string `json:"reconnect"`       // no | before-late-reply | after-late-reply | before-close (the new connection announces the id while the old one is still open)
 	Admin     bool   `json:"admin,omitempty"` // text commands issued in the admin text mode of a BINARY connection (COMMAND_ADMIN)
 	DudWill   string `json:"dud,omitempty"`   // a will that cannot do anything is registered FIRST: unlock-unused-db | lock-db255 | unlock-missing-key
+	ZeroId    bool   `json:"zero,omitempty"`  // the victim never announced a client id; an UNRELATED client connects later and announces the all-zero id
 }
 
 func (k c18Case) name() string {
@@ -33,6 +34,9 @@ func (k c18Case) name() string {
 	}
 	if k.Admin {
 		n += "/admin-text-mode"
+	}
+	if k.ZeroId {
+		n += "/stranger-announces-zero-id"
 	}
 	return n
 }
@@ -48,6 +52,11 @@ func c18Cases(quick bool) []EnumCase {
 				for _, cause := range []string{"client-close", "protocol-error", "client-kill"} {
 					for _, at := range []string{"before-grant", "at-timeout-tick", "after-timeout"} {
 						for _, rc := range []string{"no", "before-late-reply", "after-late-reply", "before-close"} {
+							if !init && rc == "before-late-reply" && wills == 0 && cause == "client-close" && at == "before-grant" {
+								// (binary and text victims alike)
+								k := c18Case{Text: text, Init: false, Wills: wills, Cause: cause, CloseAt: at, Reconnect: rc, ZeroId: true}
+								out = append(out, mkCase(k.name(), k))
+							}
 							if text && (init || rc != "no") {
 								continue // client ids are a binary-protocol notion
 							}
@@ -281,7 +290,11 @@ func evalC18(c *Ctx, cs EnumCase) EnumResult {
 		// reconnect under the same client id
 		if k.Reconnect == "before-late-reply" {
 			nc, _ = wire.Dial(addr)
-			_ = nc.Send(initFrame(40, 0xaa))
+			if k.ZeroId {
+				_ = nc.Send(initFrame(40, 0))
+			} else {
+				_ = nc.Send(initFrame(40, 0xaa))
+			}
 			nc.TakeBin()
 		}
 		// the observer releases key 2: the queued request (if still live) is granted now -> late reply
@@ -307,6 +320,12 @@ func evalC18(c *Ctx, cs EnumCase) EnumResult {
 			queuedLive := !k.Text && closeT < t0+3*sec
 			gotLate := false
 			for _, r := range late {
+				if k.ZeroId {
+					if r.Req[0] != 40 {
+						add("reply-misrouted/stranger-with-zero-client-id", fmt.Sprintf("an unrelated client that announced the all-zero client id received a frame for RequestId %d (result %s) of the connection that had gone", r.Req[0], hapi.ResultName(r.Result)))
+					}
+					continue
+				}
 				if r.Req[0] == 3 {
 					gotLate = true
 				} else if r.Req[0] != 40 && r.Req[0] != 2 && !(r.Req[0] >= 30 && r.Req[0] <= 32) && !(k.SelfQueue && r.Req[0] == 4) {
@@ -314,7 +333,7 @@ func evalC18(c *Ctx, cs EnumCase) EnumResult {
 					add("reply-misrouted", fmt.Sprintf("the reconnected connection received a frame for RequestId %d", r.Req[0]))
 				}
 			}
-			if (k.Reconnect == "before-late-reply" || k.Reconnect == "before-close") && queuedLive && !gotLate {
+			if !k.ZeroId && (k.Reconnect == "before-late-reply" || k.Reconnect == "before-close") && queuedLive && !gotLate {
 				add("late-reply-not-delivered-to-reconnected-client", fmt.Sprintf("a client announcing the same client id reconnected before the queued request was granted, but the grant reply was not delivered to it (it received %s)", binStr(late)))
 			}
 		}
